@@ -108,9 +108,18 @@ def _subst_closure_arg(cb, t, arg):
 def outcomes(prog, eff, b):
     """[(pos, term, extra_facts)]: `extra_facts` are relations that hold for this alternative in addition to
     body.facts_at(pos) (used when a combinator over an opaque value is split symbolically into its two cases)."""
+    from .checks import error_passthrough
     out = []
     for pos, t in b.return_terms():
         for p2, t2 in alternatives(b, pos, t):
+            x = error_passthrough(t2)
+            if x is not None and x[0] == 'call':
+                # `X?` where X is itself a combinator chain (x.ok_or(e)?): its failure alternatives are what is returned here
+                sub = _combinators(prog, eff, b, p2, x, 0)
+                errs = [a for a in sub if deep_strip(a[1])[0] == 'agg' and deep_strip(a[1])[2] == 'Err']
+                if errs and all(deep_strip(a[1])[0] == 'agg' for a in sub):
+                    out.extend(errs)
+                    continue
             out.extend(_combinators(prog, eff, b, p2, t2, 0))
     return out
 
